@@ -773,7 +773,7 @@ func (g *c24G) body(cmd string) string {
 	case "join":
 		return "M" + mKV("Existing", g.pick([]string{"L", "n", "L" + mS("127.0.0.1:1"), "L" + mS("127.0.0.1:1") + ";" + mS("127.0.0.1:2")})) + "," + mKV("Replay", g.pick([]string{"t", "f"}))
 	case "members-filtered":
-		return "M" + mKV("Tags", g.pick([]string{"n", "D", "D" + hexs("role") + ":" + mS("web")})) + "," + mKV("Status", mS(g.pick([]string{"", "alive", "left", "al.*"}))) + "," + mKV("Name", mS(g.pick([]string{"", "node-.*", "zz"})))
+		return "M" + mKV("Tags", g.pick([]string{"n", "D", "D" + hexs("role") + ":" + mS("web")})) + "," + mKV("Status", mS(g.pick([]string{"", "alive", "left", "al.*", "alive", "("}))) + "," + mKV("Name", mS(g.pick([]string{"", "node-.*", "zz"})))
 	case "stream":
 		return "M" + mKV("Type", mS(g.pick([]string{"*", "user", "user:deploy", "member-join,user:a", "query", "", "bogus", "member-update", "user:nomatch"})))
 	case "monitor":
@@ -891,6 +891,10 @@ func c24Gen(rng *rand.Rand, tier string) []Case {
 		append(badV("2147483647"), g.hdr("stats"), g.hdr("tags"), "M"+mKV("Tags", "D"+hexs("role")+":"+mS("web"))),
 		append(append(badV("3"), auth("sekret")...), g.hdr("members")),
 	)
+	// members-filtered with an uncompilable pattern: after both gates the handler returns the error without a reply
+	fixed = append(fixed,
+		append(append(hs(), auth("sekret")...), g.hdr("members-filtered"), "M"+mKV("Name", mS("(")), g.hdr("stats")),
+		append(hs(), g.hdr("members-filtered"), "M"+mKV("Tags", "D"+hexs("role")+":"+mS("("))+","+mKV("Status", mS("alive")), g.hdr("stats")))
 	// almost the key (the fixed cases run with key "sekret"): a proper prefix, one byte, an extension, another case, empty
 	for _, nk := range []string{"sekre", "s", "sekretx", "SEKRET", ""} {
 		fixed = append(fixed, append(append(hs(), auth(nk)...), g.hdr("members"), g.hdr("event"), "M"+mKV("Name", mS("deploy"))))
